@@ -1126,4 +1126,39 @@ theorem complete_prefix (rem : Cid → Bool) (loc : List (Cid × Blk)) (root : L
   rw [g8']
   exact ⟨by rw [hsim.1], hsim.2⟩
 
+/-- if the responder holds every block of the locally loaded prefix, its skip window is exactly
+    that prefix: every entry in the window is held by the requestor -/
+theorem win_of_prefix_held (rem : Cid → Bool) (loc : List (Cid × Blk)) : ∀ (pre tl : LT) (seen : List Cid),
+    (∀ m ∈ pre, rem m.cid = true) → (∀ m ∈ pre, holds loc m.cid = true) →
+    ∀ it ∈ (respItemsW rem (pre ++ tl) seen pre.length).take pre.length, holds loc it.link = true
+  | [], _, _, _, _ => by intro it hit; simp at hit
+  | m :: pre, tl, seen, hr, hh => by
+    intro it hit
+    rw [List.cons_append, respItemsW] at hit
+    simp only [hr m (by simp), if_true, List.length_cons, List.take_succ_cons, List.mem_cons] at hit
+    rcases hit with rfl | hit
+    · exact hh m (by simp)
+    · exact win_of_prefix_held rem loc pre tl (m.cid :: seen) (fun x hx => hr x (by simp [hx]))
+        (fun x hx => hh x (by simp [hx])) it (by simpa using hit)
+
+/-- `complete_prefix` when the responder holds every block of the requestor's local prefix (its
+    first `N` traversed links are then exactly the requestor's `N` local loads) -/
+theorem complete_prefix_held (rem : Cid → Bool) (loc : List (Cid × Blk)) (root : LNode) (pre' : LT) (n : LNode) (post : LT)
+    (hwf : WF (root :: pre' ++ n :: post))
+    (hroot0 : root.path = []) (hne : ∀ m ∈ pre' ++ n :: post, m.path ≠ [])
+    (hdfs : PathsDFS ((root :: pre').map (·.path)))
+    (hheld : ∀ m ∈ root :: pre', holds loc m.cid = true) (hmiss : holds loc n.cid = false)
+    (hrem : ∀ m ∈ root :: pre', rem m.cid = true) :
+    let lt := root :: pre' ++ n :: post
+    let items := respItemsW rem lt [] (pre'.length + 1)
+    let s4 := afterResponseP loc (root :: pre') n (mdOf items) (blocksOfItems items)
+    (walk ({ store := loc } : State) (root :: pre')).1 = (root :: pre').map (fun m => (m, true)) ∧
+    (load (walk ({ store := loc } : State) (root :: pre')).2 n.path n.cid).2 =
+        .done { data := none, err := some (.missing n.cid n.path), loc := true } ∧
+    retry s4 = load { s4 with mra := none } n.path n.cid ∧
+    (root :: pre').map (fun m => (m, true)) ++ (walk { s4 with mra := none } (n :: post)).1 = (refTrav rem lt loc none).1 ∧
+    ∀ c, holds (walk { s4 with mra := none } (n :: post)).2.store c = holds (refTrav rem lt loc none).2 c :=
+  complete_prefix rem loc root pre' n post hwf hroot0 hne hdfs hheld hmiss (hrem root (by simp))
+    (fun it hit _ => win_of_prefix_held rem loc (root :: pre') (n :: post) [] hrem hheld it hit)
+
 end GS.Loader
